@@ -249,3 +249,15 @@ func (fr *Frame) rootMode(name string) bool {
 	}
 	return root.spec != nil && root.spec.Modes[name]
 }
+
+// freeVarAddr: the cell of a captured variable of the closure this frame verifies (for `modifies v` and `&v` in its contract).
+func (fr *Frame) freeVarAddr(name string) (string, types.Type, bool) {
+	for i, fv := range fr.fn.FreeVars {
+		if fv.Name() == name && i < len(fr.bindings) {
+			if pt, ok := fv.Type().Underlying().(*types.Pointer); ok {
+				return fr.bindings[i].t, pt.Elem(), true
+			}
+		}
+	}
+	return "", nil, false
+}
